@@ -139,9 +139,54 @@ def check_live():
     return None
 
 
+class EventTimeout(BaseException):
+    pass
+
+
+def _on_alarm(signum, frame):
+    raise EventTimeout('the call did not return within %d s (a pristine call takes milliseconds)' % EVENT_SECONDS)
+
+
+EVENT_SECONDS = 120
+PREFIX_PROBLEM_CAP = 25
+
+
+def guard_resources():
+    """a library whose results grow with the call history (a shared shape split again by every call, say) must end as a reported
+    difference, not as a machine without memory: 8 GB address space per explorer process, 120 s per event"""
+    import resource
+    import signal
+    try:
+        soft, hard = resource.getrlimit(resource.RLIMIT_AS)
+        cap = 8 << 30
+        if hard == resource.RLIM_INFINITY or hard > cap:
+            resource.setrlimit(resource.RLIMIT_AS, (cap, hard))
+    except Exception:
+        pass
+    try:
+        signal.signal(signal.SIGALRM, _on_alarm)
+    except Exception:
+        pass
+
+
 def run_event(ev):
     """ev = (name, function path, args, mutate?) -> (canonical result, problem or None)"""
-    res, prob = _run_event(ev)
+    import signal
+    try:
+        signal.alarm(EVENT_SECONDS)
+    except Exception:
+        pass
+    try:
+        res, prob = _run_event(ev)
+    except EventTimeout as e:          # raised outside the guarded call (while canonicalising a huge result, say)
+        res, prob = ('exc', f'EventTimeout: {e}'), None
+    except MemoryError as e:
+        res, prob = ('exc', f'MemoryError: {e}'), None
+    finally:
+        try:
+            signal.alarm(0)
+        except Exception:
+            pass
     if prob is None:
         prob = check_live()
     return res, prob
@@ -183,12 +228,17 @@ def expand(task):
     history, menu, expected = task[:3]
     want_hash = task[3] if len(task) > 3 else None      # names of events whose successor state must be identified (None = all)
     problems = []
+    guard_resources()
     for ev in history:
         res, prob = run_event(ev)
         if prob:
             problems.append((ev[0], prob))
         if expected is not None and ev[0] in expected and res != expected[ev[0]]:
             problems.append((ev[0], 'result differs from the pristine single call (during prefix replay)'))
+        if len(problems) >= PREFIX_PROBLEM_CAP:
+            # the library is deterministic: once this many replayed events have gone wrong nothing new is learnt by going on, and a
+            # history-dependent blow-up would only get worse
+            return state_hash(), [], problems
     h0 = state_hash()
     import gc
     gc.collect()
